@@ -649,6 +649,18 @@ func At(row, off, idx *Term) *Term {
 	return mk("at."+el.Name, el, row, off, idx)
 }
 
+// FSum is the built-in slice sum: the sum of the real values of the n cells
+// row[off..off+n) (0 when n <= 0). It is an uninterpreted function with (1) its
+// defining recursion instantiated by the generator at ground applications
+// (fsumUnfold) and (2) the store-update law, both theorems about finite sums.
+func FSum(row, off, n *Term) *Term {
+	_, el, ok := row.Sort.arrayParts()
+	if !ok {
+		panic("FSum on non-array " + row.Sort.Name)
+	}
+	return mk("fsum."+el.Name, SReal, row, off, n)
+}
+
 func distinctLits(a, b *Term) bool {
 	if a.Op == "int" && b.Op == "int" {
 		return a.Name != b.Name
